@@ -48,6 +48,7 @@ let parse_op s =
   | 'w' -> OWrite (bytes_of_hex rest)
   | 'a' -> OWriteAll (bytes_of_hex rest)
   | 'f' -> OFlush
+  | 't' -> OTryFinish
   | _ -> failwith "op"
 
 let parse_ending = function
@@ -69,7 +70,7 @@ let handle kind a =
               ^ (match o.o_pos with Some p -> dec_of_n p | None -> "-") ^ "|"
               ^ hex_of_bytes o.o_sink ^ "|" ^ fmt_read rd)
       with Oracle_miss -> Some "deflate-oracle-miss")
-  | "rd" ->
+  | "rd" | "rdbig" ->
       let table = parse_table a.(0) in
       Some (fmt_read (reader_read_to_end (inflate_of table) (bytes_of_hex a.(1))))
   | _ -> None
